@@ -329,6 +329,10 @@ class MetadorMeta:
         schema_name, schema_ver = plugin_args(schema, version)
         # no schema selected -> list everything
         if not schema_name:
+            if isinstance(schema, tuple):
+                schema = schema[0]
+            if not isinstance(schema, str):
+                return  # e.g. a schema class that is no plugin - names no schema
             for obj in self.values():
                 yield obj.schema
             return
@@ -358,8 +362,10 @@ class MetadorMeta:
 
         Will also consider compatible child schema instances.
         """
-        if schema == "" or isinstance(schema, tuple) and schema[0] == "":
-            return False  # empty query lists everything, here the logic is inverted!
+        if not plugin_args(schema)[0]:
+            # empty query lists everything, here the logic is inverted!
+            # (the same for objects that name no schema plugin at all)
+            return False
         return next(self.query(schema), None) is not None
 
     @overload
